@@ -501,19 +501,17 @@ def _seq_filter(hs, eff):
     reused connection) are generated once; stall only where the wait is finite"""
     t, c, r = eff
     C = ref_connect(*eff)
-    out, seen = [], set()
+    out = []
     for s1, s2 in hs:
         first_ok = s1["d"] <= C and ref_read(t, c, r, s1["d"]) > 0
         reused = first_ok and s1["mode"] == "ka" and s2["host"] == "a"
         if reused and s2["d"] != 0:
-            continue
-        R2 = ref_read(t, c, r, 0 if reused else s2["d"])
-        if s2["mode"] == "stall" and not (s2["d"] <= C or reused) or (s2["mode"] == "stall" and not 0 < R2 < INF):
-            continue
-        key = repr((s1, s2))
-        if key not in seen:
-            seen.add(key)
-            out.append([s1, s2])
+            continue  # no connect on a reused connection: d2 is not consulted
+        if s2["mode"] == "stall":
+            connects = reused or s2["d"] <= C
+            if not (connects and 0 < ref_read(t, c, r, 0 if reused else s2["d"]) < INF):
+                continue
+        out.append([s1, s2])
     return out
 
 
